@@ -147,10 +147,11 @@ type planItem struct {
 	class    string // which list this case belongs to
 	dim      string // stable description of what the case sweeps (violation key suffix)
 	c        sshCase
-	size     int  // payload size; -1: random 0..200000
-	rekey    int  // rk*; -1: random
-	random   bool // all algorithm dimensions random
-	defaults bool // nothing pinned: client and server defaults
+	size     int    // payload size; -1: random 0..200000
+	rekey    int    // rk*; -1: random
+	random   bool   // all algorithm dimensions random
+	defaults bool   // nothing pinned: client and server defaults
+	steer    string // "lz"/"hb": the Go server's ephemeral value is chosen so that K has this shape
 	av       *authVariant
 }
 
@@ -211,6 +212,20 @@ func buildPlan(l *algLists, thorough bool) (plan []planItem, skippedKnown int) {
 	for _, sz := range []int{0, 1, 32768, 200000} {
 		for rk := rkNone; rk <= rkBoth; rk++ {
 			plan = append(plan, planItem{class: "size", dim: fmt.Sprintf("size=%d,rekey=%s", sz, rkNames[rk]), c: bg(), size: sz, rekey: rk})
+		}
+	}
+	for _, k := range l.kex {
+		if !steerableByRand(k) {
+			continue
+		}
+		for _, mode := range []string{"lz", "hb"} {
+			c := bg()
+			c.Kex = k
+			rk, size := rkClient, 40000 // the re-keys are steered too
+			if strings.Contains(k, "group-exchange") || strings.Contains(k, "group16") {
+				rk, size = rkNone, 5000 // large groups: one steered exchange
+			}
+			plan = append(plan, planItem{class: "steer", dim: "kex=" + k + ",K=" + mode, c: c, size: size, rekey: rk, steer: mode})
 		}
 	}
 	for _, rk := range []int{rkNone, rkBoth} {
@@ -457,7 +472,11 @@ func (e *env) runOpenSSH(p planItem, i int64, r *rand.Rand) {
 	m := e.m
 	c, _, rk := p.resolve(e.lists, r)
 	key := e.mt.client.keys[c.KeyName]
-	srv, err := startServer(e.mt.host, serverOpts{expectKey: key.Pub, wantCert: c.UseCert, userCA: e.mt.client.userCA, rekeyThreshold: c.ServerRekey, defaults: p.defaults})
+	var steer *steerRand
+	if p.steer != "" {
+		steer = newSteerRand(c.Kex, p.steer)
+	}
+	srv, err := startServer(e.mt.host, serverOpts{expectKey: key.Pub, wantCert: c.UseCert, userCA: e.mt.client.userCA, rekeyThreshold: c.ServerRekey, defaults: p.defaults, steer: steer})
 	if err != nil {
 		m.Inconclusive("cannot listen on loopback: " + err.Error())
 		return
@@ -477,6 +496,10 @@ func (e *env) runOpenSSH(p planItem, i int64, r *rand.Rand) {
 		"class": p.class, "dim": p.dim, "kex": c.Kex, "hostkey_alg": c.HostKeyAlg, "cipher": c.Cipher, "mac": c.MAC,
 		"user_key": c.KeyName, "user_cert": c.UseCert, "pubkey_alg": c.PubkeyAlg, "cmd": c.Cmd, "payload_len": len(c.Payload),
 		"rekey": rkNames[rk], "argv": strings.Join(c.args(e.mt, port), " "),
+	}
+	if steer != nil {
+		served, confirmed, tries, failed := steer.stats()
+		desc["steered_shape_of_K"] = map[string]any{"shape": p.steer, "exchanges_served": served, "confirmed_by_tapped_K": confirmed, "candidates_tried": tries, "search_failures": failed}
 	}
 	witness := func(extra map[string]any) map[string]any {
 		w := map[string]any{"case": desc, "ssh_exit": res.Exit, "ssh_stdout_len": len(res.Stdout), "go_server": rep.String(),
@@ -604,6 +627,17 @@ func (e *env) runOpenSSH(p planItem, i int64, r *rand.Rand) {
 	// ---- evidence ----
 	m.Count("openssh_ok", 1)
 	m.Count("openssh_ok_"+p.class, 1)
+	if steer != nil {
+		_, confirmed, tries, _ := steer.stats()
+		m.Count("openssh_steer_candidates_tried", tries)
+		m.Count("openssh_steered_exchanges_"+p.steer, confirmed)
+		m.Count(fmt.Sprintf("steered %s kex %s", p.steer, c.Kex), confirmed)
+		if confirmed >= 1 {
+			m.Count("openssh_steered_cases_"+p.steer, 1)
+		} else {
+			m.Count("openssh_steer_unconfirmed", 1)
+		}
+	}
 	m.Count("openssh_key_exchanges", len(l.Kex))
 	m.Count("openssh_rekeys_client_initiated", l.ClientInit)
 	m.Count("openssh_rekeys_server_initiated", l.ServerInit)
@@ -642,7 +676,7 @@ func (e *env) runOpenSSH(p planItem, i int64, r *rand.Rand) {
 		m.Count("openssh_payload_"+sizeClass(len(c.Payload)), 1)
 	}
 	m.Distinct(fmt.Sprintf("openssh %s %s %s %s %s key=%s cert=%v alg=%s size=%s rekey=%s cmd=%s", p.class, c.Kex, c.HostKeyAlg, c.Cipher, c.MAC, c.KeyName, c.UseCert, c.PubkeyAlg, sizeClass(len(c.Payload)), rkNames[rk], strings.Fields(c.Cmd)[0]))
-	if p.class == "mix" || (p.class == "kex" && strings.Contains(c.Kex, "group-exchange")) {
+	if p.class == "mix" || (p.class == "kex" && strings.Contains(c.Kex, "group-exchange")) || (p.class == "steer" && i%3 == 0) {
 		delete(desc, "argv")
 		m.Sample(map[string]any{"part": "openssh->go", "case": desc, "ssh_exit": res.Exit, "key_exchanges": len(l.Kex), "client_initiated_rekeys": l.ClientInit, "server_initiated_rekeys": l.ServerInit, "openssh_sign_alg": l.SignAlgs, "go_server": rep.String()})
 	}
@@ -681,9 +715,9 @@ func TestC27(t *testing.T) {
 	m := mon.New(t, "C27")
 	defer m.Done()
 	m.Rule("Part 1 (claimed: Go server <- OpenSSH client): a fixed plan of real /usr/bin/ssh invocations against a real ssh.NewServerConn server on loopback TCP, one algorithm pinned per dimension on the client (-o KexAlgorithms/HostKeyAlgorithms/Ciphers/MACs/PubkeyAcceptedAlgorithms), the server offering everything it implements. " +
-		"Lists = `ssh -Q` ∩ SupportedAlgorithms()+InsecureAlgorithms() computed at run time. Plan: every kex, host key algorithm (plain and -cert-v01 through a @cert-authority line), cipher, MAC and user key/certificate/signature algorithm once against a fixed background (32 KiB or 200 KB echoed through `cat`, re-key forced by RekeyLimit=16K and/or Config.RekeyThreshold=16384), exit-status values, payload sizes {0,1,32 KiB,200 KB} x re-key initiator {none,client,server,both}, PRNG-determined mixed configurations with payloads 0..200000; thorough adds the kex x hostkey and cipher x MAC products. " +
+		"Lists = `ssh -Q` ∩ SupportedAlgorithms()+InsecureAlgorithms() computed at run time. Plan: every kex, host key algorithm (plain and -cert-v01 through a @cert-authority line), cipher, MAC and user key/certificate/signature algorithm once against a fixed background (32 KiB or 200 KB echoed through `cat`, re-key forced by RekeyLimit=16K and/or Config.RekeyThreshold=16384), exit-status values, payload sizes {0,1,32 KiB,200 KB} x re-key initiator {none,client,server,both}, sessions in which the shape of K is forced at every exchange (leading 00 + byte < 0x80; top bit set) for every kex whose server-side ephemeral value comes from Config.Rand (curve25519 x2, DH fixed groups, group exchange), PRNG-determined mixed configurations with payloads 0..200000; thorough adds the kex x hostkey and cipher x MAC products. " +
 		"A case is distinct by (class, algorithms, key, size class, re-key mode). Verdict = OpenSSH's exit status and -vvv account + byte equality + the Go side's Algorithms()/auth/exec record. " +
-		"Part 2 (substitutes, NOT OpenSSH interoperability evidence): real Go client against sshref.Peer (independent implementation) in server role for every kex it implements and every cipher x MAC; real Go client <-> real Go server for every kex and host key algorithm with the captured byte stream decrypted by sshref from the tapped K/H and the exchange hash recomputed by ref/sshkexhash.")
+		"Part 2 (substitutes, NOT OpenSSH interoperability evidence): real Go client against sshref.Peer (independent implementation) in server role for every kex it implements and every cipher x MAC; real Go client against steerPeer (independent server that picks its ephemeral key last) with the same two shapes of K forced for curve25519, ECDH P-256/384/521 and DH group1/14/16; real Go client <-> real Go server for every kex and host key algorithm with the captured byte stream decrypted by sshref from the tapped K/H and the exchange hash recomputed by ref/sshkexhash.")
 	m.Assume("OpenSSH 9.x client (/usr/bin/ssh, ssh-keygen) is the oracle of part 1; its -vvv log format is parsed (a log that cannot be parsed is inconclusive, never a violation)")
 	m.Assume("key material is fresh per process (crypto/rand, ssh-keygen) and OpenSSH's ephemeral values cannot be seeded: the plan and payloads are a pure function of the seed, the key values are not")
 	m.Assume("sshref (own vector tests) and ref/sshkexhash (RFC vectors) for part 2")
@@ -733,6 +767,18 @@ func TestC27(t *testing.T) {
 	m.Gate("openssh_ok_userkey", nav, "every user key type / certificate / signature algorithm authenticated")
 	m.Gate("openssh_exit_status_nonzero", 4, "non-zero exit-status values delivered")
 	m.Gate("openssh_rekeys_client_initiated", 20, "re-keys started by the OpenSSH client (RekeyLimit)")
+	nsteer := 0
+	var unsteerable []string
+	for _, k := range lists.kex {
+		if steerableByRand(k) {
+			nsteer++
+		} else {
+			unsteerable = append(unsteerable, k)
+		}
+	}
+	m.Note(fmt.Sprintf("shape of K steered through ServerConfig.Rand for %d kex; not steerable (Go 1.26 ecdsa.GenerateKey ignores a custom reader): %v — those are steered only in part 2a (independent server chooses its key last)", nsteer, unsteerable))
+	m.Gate("openssh_steered_cases_lz", nsteer, "OpenSSH client sessions in which the Go server's K was forced to start with 00 followed by a byte < 0x80 (mpint one byte shorter), per steerable kex, confirmed through the tapped K")
+	m.Gate("openssh_steered_cases_hb", nsteer, "OpenSSH client sessions in which the Go server's K was forced to have its top bit set (mpint needs a 00 pad), per steerable kex")
 	m.Gate("openssh_ok_defaults", 2, "unpinned OpenSSH client against the default server configuration")
 	m.Gate("openssh_rekeys_server_initiated", 10, "re-keys started by the Go server (RekeyThreshold)")
 	m.Gate("openssh_payload_0", 4, "empty payload")
